@@ -16,6 +16,9 @@ impl Bytes {
     pub fn len(&self) -> (r: usize) ensures r == self@.len() { self.inner.len() }
     #[verifier::external_body]
     pub fn is_empty(&self) -> (r: bool) ensures r == (self@.len() == 0) { self.inner.is_empty() }
+    /// AsRef<[u8]>: the remaining bytes as a slice (nothing is consumed)
+    #[verifier::external_body]
+    pub fn as_ref(&self) -> (r: &[u8]) ensures r@ == self@ { &self.inner }
     #[verifier::external_body]
     pub fn split_to(&mut self, at: usize) -> (r: Bytes)
         requires at <= old(self)@.len(),
